@@ -13,6 +13,25 @@ JSON_THEOREMS = ["json_string_roundtrip", "surrogate_roundtrip", "json_roundtrip
                  "json_parser_roundtrip", "nesting_limit_matches_source", "jsonDecodeL_eq_some", "json_too_deep_rejected"]
 
 
+# Behaviour-preserving rewrites of the anchored code that the check must NOT alarm on (built as mutated object files in
+# scratch, linked into a scratch harness, corpus + quick generator + translator run on each: no alarm on any of them at
+# the first attempt; patches kept as documentation under corpus/C20/negative_controls/*.diff, not applied by the check).
+NEGATIVE_CONTROLS = [
+    "nc1_buffered_reader_refactor: buffered ReadStringFromStream — length parsing extracted into a helper, locals renamed, independent statements reordered",
+    "nc2_error_message_texts: every invalid_argument text of netstring.cpp, DecodeMessage and the nesting guard reworded (error kinds are a statistic "
+    "`t_errkind_diff`, never compared; only ok/error/eof, payloads and unread byte counts are)",
+    "nc3_bookkeeping_and_buffer_growth: JsonSax keeps an extra open-container counter used by the guard; FillFromStream reallocs 8 KiB of head room instead of 4 KiB",
+    "nc4_equivalent_guards: `!(max < 0) && !(len <= max)`, nested ifs, if/else instead of early throw in the buffered reader, early return in DecodeMessage, "
+    "`!(size < limit)` in the nesting guard",
+    "nc5_translator_anchor_respelled: l_JsonMaxNestingDepth moved to the top of json.cpp into an anonymous namespace, spelled `constexpr … { 1'000u }`, "
+    "mentioned in comments with other numbers, guard extracted into a static helper used by start_object/start_array (gen/c20_limits.py still reads 1000)",
+    "nc6_tls_readers_share_helper: both TLS readers call one extracted template `ReadLengthField(readOne)`; locals renamed",
+]
+# Seeded changes re-checked afterwards (all caught with a concrete input): data_length = len (framesSplit, no_crash), DecodeMessage without the
+# dictionary test (messageOnlyObjects, no_crash on `4:null,`), limit 2000 (translator/nesting_limit_matches_source + depthLimit at 1001 levels),
+# guard missing in start_object (depthLimit, no_crash at 12000 levels on the coroutine path), `>` instead of `>=` (depthLimit at 1001 levels).
+
+
 class C20(Check):
     prop = "C20"
     required_theorems = ["netstring_roundtrip", "netstring_accepts_only_canonical", "netstring_reader_outcomes",
